@@ -92,7 +92,6 @@ def run(ctx):
         traces = _go(ctx, modes + ["conc"], env)
     else:
         traces = _go(ctx, modes, env)
-        env["VERIF_C16_NOPEEK"] = "1"      # Peek reads the value without its lock: a race-detector report there is not this property
         traces.update(_go(ctx, ["conc"], env, race=True))
     seq_replay(ctx, behs, traces["seq"])          # 2. sequential binding
     conc(ctx, traces["conc"])                     # 3. concurrent driver
@@ -100,6 +99,17 @@ def run(ctx):
         candidate(ctx, key, traces[mode], what)
     for key, mode in SCHEDULES:                   # 5. forced schedules of the staleness clause
         schedule(ctx, key, traces[mode])
+    # ---- 6. hook H3 (hooks/H3-revcache.patch): with it the concurrent driver above was validated step by step; thorough: the
+    #         repository's own revision cache tests, unmodified, are recorded and validated the same way
+    try:
+        hooked = "verifRCLocked(" in open(os.path.join(REPO, "db", "revision_cache_lru.go")).read()
+    except OSError:
+        hooked = False
+    ctx.cov["hook_H3_present"] = hooked
+    if hooked and not quick:
+        existing_tests(ctx)
+    if not hooked:
+        ctx.notes.append("hook H3 is not in this tree: concurrent runs judged at quiescence only (apply hooks/H3-revcache.patch for step-level validation)")
 
     ctx.cov["rule"] = ("behaviours = every sequence of 3 whole calls (Get/GetActive/Put/Upsert/Remove/Peek x 2 keys x 2 contents x loader "
                        "ok/fail, + StoreUpdate and Invalidate) x 2 configurations [quick: a seeded third] + seeded simulations of 10 calls over 4 keys, 36 configurations, "
@@ -110,7 +120,8 @@ def run(ctx):
         "staleness clause at component level: StoreUpdate = the scripted bucket changes the channels of a revision (same rev id and version); Invalidate(k) = Remove(k) as the feed issues it, per key. Which keys DocChanged/crud.go actually remove (user-xattr change: the rev-id key only; UnchangedCV: the cv key only) is not decided here (no real database in the binding)",
         "accounting clauses are judged at quiescence (sequential: after every call; concurrent: when all goroutines have returned)",
         "expected contents are what the real BypassRevisionCache loads from the same scripted backing store",
-        "hook H3 is not used: concurrent runs are validated on quiescent snapshots only (pass P), conformance (pass C) on sequential runs",
+        "with hook H3 every hooked step of the cache runs inside one global mutex (verif build only), so the recorded event order is the order of effect; this serialises steps but excludes no interleaving of steps. Steps without a hook (GetActive's document read, the over-capacity check, Peek's read) are placed by the validator",
+        "own tests of the repository: return values and bucket contents are not recorded, so Fresh is not judged there; cache instances with more than %d concurrent calls or %d keys are validated on recorded scalars only (pass P), not replayed by the model" % (OWN_MAX_THREADS, OWN_MAX_KEYS),
     ]
 
 
